@@ -300,7 +300,7 @@ fn rand_op(rng: &mut Rng, remaining_hint: usize) -> Op {
     }
 }
 
-pub fn gen_case(seed: u64, case: u64) -> (Vec<u8>, Vec<usize>, Vec<Op>) {
+fn gen_case(seed: u64, case: u64) -> (Vec<u8>, Vec<usize>, Vec<Op>) {
     let mut rng = Rng::for_case(seed, 2701, case);
     let len = match rng.below(6) {
         0 => rng.usize(24),
